@@ -338,7 +338,7 @@ def step (j : Json) : Json :=
         | some ns => Json.arr (ns.map nodeJson).toArray)
       (Soap.headerNodes F S cfg I (tyListOf (getObj j "classes")) (outHeaderOf (getObj j "out")))
   | "response" =>
-    Json.mkObj [("ok", Json.arr ((Soap.responseNodes F cfg I (styleOf (getStr j "style")) (strText j "outName")
+    Json.mkObj [("ok", Json.arr ((Soap.responseNodes F S cfg I (styleOf (getStr j "style")) (strText j "outName")
       (tyOf (getObj j "outMsg")) ((getArr j "rets").toList.map valOf)).map nodeJson).toArray)]
   | "argsOf" =>
     Json.mkObj [("ok", Json.arr ((Soap.argsOf (styleOf (getStr j "style")) (valOf (getObj j "val"))).map valJson).toArray)]
